@@ -54,7 +54,8 @@ func genC13Case(t *rapid.T) C13Case {
 		spec.SPs[i].SLO = nil
 		for k := 0; k < n; k++ {
 			loc := fmt.Sprintf(rapid.SampledFrom([]string{"https://sp%d.example/slo/%d", "https://sp%d.example/slo/%d?a=1&b=2", "https://sp%d.example/slo/%d/\"q\"", "https://sp%d.example/slö/%d"}).Draw(t, "sloloc"), i, k)
-			spec.SPs[i].SLO = append(spec.SPs[i].SLO, world.SLOSpec{Binding: rapid.SampledFrom([]string{world.BindPost, world.BindRedirect, world.BindSOAP}).Draw(t, "slobinding"), Location: loc})
+			spec.SPs[i].SLO = append(spec.SPs[i].SLO, world.SLOSpec{Binding: rapid.SampledFrom([]string{world.BindPost, world.BindRedirect, world.BindSOAP}).Draw(t, "slobinding"), Location: loc,
+				ResponseLocation: rapid.SampledFrom([]string{"", "", loc, loc + "/response", "https://responses.example/slo"}).Draw(t, "sloresponselocation")})
 		}
 	}
 	if rapid.IntRange(0, 2).Draw(t, "slopath") == 0 {
@@ -73,6 +74,12 @@ func genC13Case(t *rapid.T) C13Case {
 	}
 	if rapid.Bool().Draw(t, "reason") {
 		l.Reason = "urn:oasis:names:tc:SAML:2.0:logout:user"
+	}
+	if rapid.IntRange(0, 2).Draw(t, "qualifier") == 0 {
+		l.SPNameQualifier = spec.SPs[rapid.IntRange(0, len(spec.SPs)-1).Draw(t, "qualsp")].EntityID
+		if rapid.Bool().Draw(t, "namequal") {
+			l.NameQualifier = "https://idp.example"
+		}
 	}
 	for i := 0; i < rapid.IntRange(0, 2).Draw(t, "nsess"); i++ {
 		l.SessionIndex = append(l.SessionIndex, fmt.Sprintf("_s%d", i))
